@@ -11,7 +11,8 @@ META = {
             "(1) in EKO.__exit__ and Builder.__exit__ no path reaches close()/dump() unless the exception type is None (path-"
             "condition analysis: the guard must be a pure None test, so KeyboardInterrupt/SystemExit are covered); (2) the "
             "permanent path is published atomically: the function that materialises the archive writes a temporary sibling and "
-            "moves it over the target with os.replace/Path.replace/rename (accepted alternatives: move-aside-and-restore, or, for "
+            "moves it over the target with os.replace/Path.replace/rename - after the writer has been closed, i.e. outside every "
+            "`with` block that opens a file for writing - (accepted alternatives: move-aside-and-restore, or, for "
             "a new archive, in-place writing under a handler that removes the partial file and re-raises); (3) the permanent "
             "path is never unlinked/truncated ahead of a completed dump; (4) who-may-write: no other function in eko/, ekobox/ "
             "opens, removes or replaces `access.path`; (5) close() is a typestate transition: every file-system effect in it is "
@@ -238,7 +239,17 @@ def run(chk):
                            f"then fails (or close() is called twice) the previous content is lost", where=where,
                            instance="unlink of the permanent path")
             elif kind == "replace":
-                chk.ok("atomic-publish", f"{f.qname}|rename onto the permanent path", ast.unparse(c)[:80])
+                # the rename publishes the file: the writer must have been closed (its `with` block left) before, otherwise the
+                # end-of-archive blocks / buffered data are still to be written and a failure there leaves an unfinished archive
+                # under the permanent name (and nothing to clean up)
+                open_writers = [w for w in ast.walk(f.node) if isinstance(w, ast.With)
+                                and any(m is c for st_ in w.body for m in ast.walk(st_))
+                                and any(k2 == "write" for it in w.items for _c2, _t2, k2 in _write_sites(it.context_expr, al))]
+                chk.decide(not open_writers, "atomic-publish", f.qname,
+                           f"`{ast.unparse(c)[:80]}` renames the temporary file onto the permanent path while the writer opened by "
+                           f"`{ast.unparse(open_writers[0].items[0].context_expr)[:60] if open_writers else ''}` is still open: the archive is "
+                           f"published before it is complete", where=where, instance="rename before close",
+                           detail="rename onto the permanent path after the writer's with-block")
         if f is fdump:
             tar_writes = [c for c, t, k in sites if k == "write" and "tarfile" in _callee(c)]
             chk.need(tar_writes, "EKO.dump no longer writes a tar archive: anchor changed")
